@@ -1321,6 +1321,11 @@ class Interp:
                 if callable(raw) and hasattr(raw, '__code__'):
                     return VBound(o, raw, name)
                 return _wrap_const(raw)
+            if o.fields.get('opaque!'):
+                # attribute of the unconstrained result of an assumed callee: unconstrained again
+                v = VObj(None, {'opaque!': True, 'bool!': self.ctx.fresh(f'truth({o.name}.{name})', z3.BoolSort())}, f'{o.name}.{name}')
+                o.fields[name] = v
+                return v
             raise Unsupported(f'{o!r} has no field {name} (line {getattr(node, "lineno", "?")})')
         if isinstance(o, VExc):
             if name == 'args':
